@@ -18,6 +18,17 @@ CHECKS = [
          note='Trusted: brute-force canonical keys and automorphisms (vf/oracles/iso.py); stereo signs read with _translate_*_sign '
               '(parity-checked in C12); SMILES-inexpressible partial labelling of conjugated polyenes is not generated.',
          technique='round-trip property-based testing (Hypothesis) plus exhaustive small-graph enumeration against brute-force isomorphism'),
+    dict(id='C03',
+         text='Generated-input search on the reader: (D1) molecules and reactions spelled by an independent random SMILES '
+              'writer (known denotation) are read and compared atom-for-atom with the generating graph, with an independent '
+              'reference reader and with RDKit for the absolute stereo convention; (D2) every token sequence of length <= 4 '
+              '(5 thorough) over a 24-token alphabet and (D3) single-token corruptions of the 4200 corpus strings are classified '
+              'by the reference reader: valid strings must be accepted and equal, hard-invalid ones rejected, and only '
+              'ValueError subclasses may escape; thorough adds atheris coverage-guided campaigns on smiles() and smarts() with '
+              'the same oracle inside the target.',
+         note='Trusted: vf/oracles/smiles_ref.py (reference reader + writer), RDKit; grey-zone strings are only required to '
+              'return a well-formed object or raise ValueError. D2 is exhaustive for its alphabet and length bound only.',
+         technique='grammar/graph-directed generation + exhaustive token enumeration + atheris coverage-guided fuzzing against a reference reader and RDKit'),
     dict(id='C18',
          text='Exhaustive enumeration of the finite domain (118 elements x all tabulated isotopes + unspecified x charge '
               '-4..+4 x radical): lookups against a literal standard table, table-key consistency, mass computability, '
